@@ -54,11 +54,16 @@ pub struct RunCfg {
     pub faults: Vec<(usize, u64)>,
     /// a fixed list of operations instead of generated ones (fault sweeps re-run the same history)
     pub script: Option<Vec<Op>>,
+    /// C11 retry oracle: the fault-free results of the scripted operations.  When the FIRST fault of a
+    /// run hits a read-only call (read, list, find, length, offset, eof), the same call is issued again
+    /// at once and must give exactly the fault-free answer ("a read-only call that failed on a transient
+    /// fault gives the correct answer when retried").
+    pub retry_expect: Option<Vec<String>>,
 }
 
 impl RunCfg {
     pub fn base(nops: usize, profile: Profile) -> RunCfg {
-        RunCfg { nops, profile, fsck_every_op: false, fsck_names_only: false, mirror_every_op: false, crash_prefixes: false, flushed_survives: false, quiesce_every: 0, tree_at_quiescent: false, leak_at_quiescent: false, remount_at_quiescent: false, compare_reads: false, region_oracle: false, info_oracle: false, reenter: false, faults: vec![], script: None }
+        RunCfg { nops, profile, fsck_every_op: false, fsck_names_only: false, mirror_every_op: false, crash_prefixes: false, flushed_survives: false, quiesce_every: 0, tree_at_quiescent: false, leak_at_quiescent: false, remount_at_quiescent: false, compare_reads: false, region_oracle: false, info_oracle: false, reenter: false, faults: vec![], script: None, retry_expect: None }
     }
 }
 
@@ -230,6 +235,7 @@ pub fn run_case(rng: &mut Rng, sc: &Scenario, cfg: &RunCfg, model: &mut Model, r
     };
 
     let mut step = 0usize;
+    let mut faults_fired = 0usize;
     let total_steps = cfg.script.as_ref().map(|s| s.len()).unwrap_or(cfg.nops);
     let mut pending_quiesce: Vec<Op> = Vec::new();
     while step < total_steps || !pending_quiesce.is_empty() {
@@ -560,6 +566,30 @@ pub fn run_case(rng: &mut Rng, sc: &Scenario, cfg: &RunCfg, model: &mut Model, r
                 }
             }
         }
+        // (C11) retry oracle: the first fault of the run hit a read-only call -> the same call again, now
+        // fault-free, must give the fault-free answer of the base run
+        if faulted {
+            faults_fired += 1;
+        }
+        if faulted && faults_fired == 1 && !from_queue && matches!(op, Op::Read(..) | Op::List(_) | Op::ListLfn(..) | Op::Find(..) | Op::Length(_) | Op::Offset(_) | Op::Eof(_)) {
+            if let Some(want) = cfg.retry_expect.as_ref().and_then(|w| w.get(step)) {
+                let ro = sess.exec(&op);
+                rep.ops += 1;
+                rep.count("fault:retry-readonly");
+                rep.count(&format!("fault:retry:{}", op.kind()));
+                rep.oracle_checks += 1;
+                device_calls.push(0);
+                if &ro.res != want {
+                    local_violation = true;
+                    rep.violation("impl-vs-spec", &format!("retry-after-fault-differs:{}", op.kind()), &format!("`{}` failed on an injected device fault (`{}`); retried at once without fault it returned `{}` but the fault-free answer is `{}`", op.show(), truncate(&out.res, 40), truncate(&ro.res, 120), truncate(want, 120)),
+                        replay_of(&ops, &outcomes, sidx, sc, J::obj(vec![("op", J::s(op.show())), ("fault_rel", J::s(format!("{:?}", fault_here))), ("retry", J::s(truncate(&ro.res, 600))), ("fault_free", J::s(truncate(want, 600)))])));
+                }
+                lines.push(Line { req: op.line(), expect: Expect::Op(ro.line(cfg.compare_reads)), step: ops.len() });
+                ops.push(op.clone());
+                outcomes.push(ro.clone());
+                gs.apply(sc, &op, &ro, None);
+            }
+        }
         if !from_queue {
             step += 1;
         }
@@ -852,7 +882,7 @@ pub fn c02(ctx: &Ctx) -> Report {
     let mut rng = Rng::new(ctx.seed ^ 0xC02);
     let n = budget(ctx, 40, 1200);
     for k in 0..n {
-        let o = ScOpts { fat32: Some(k % 3 == 0), multi_volume: k % 7 == 6, full_dir: k % 4 == 1, bpc_choices: vec![1, 1, 2, 4], ..Default::default() };
+        let o = ScOpts { fat32: Some(k % 3 == 0), multi_volume: k % 7 == 6, full_dir: k % 4 == 1, dirty: k % 8 == 1 || k % 5 == 2, bpc_choices: vec![1, 1, 2, 4], ..Default::default() };
         let sc = make_scenario(&mut rng, &o);
         // alternate: namespace-heavy histories with frequent quiescent points, and data-heavy ones
         // (seeks back and forth, appends across cluster boundaries) with rarer ones
@@ -875,7 +905,7 @@ pub fn c03(ctx: &Ctx) -> Report {
     let mut rng = Rng::new(ctx.seed ^ 0xC03);
     let n = budget(ctx, 40, 1200);
     for k in 0..n {
-        let o = ScOpts { fat32: Some(k % 4 == 0), keep_free: if k % 2 == 0 { Some(vec![0, 1, 2, 5]) } else { None }, small_root: k % 3 == 1, big_tree: k % 3 != 1, full_dir: k % 3 == 2, bpc_choices: vec![1, 1, 2, 4], ..Default::default() };
+        let o = ScOpts { fat32: Some(k % 4 == 0), keep_free: if k % 2 == 0 { Some(vec![0, 1, 2, 5]) } else { None }, small_root: k % 3 == 1, big_tree: k % 3 != 1, full_dir: k % 3 == 2, dirty: k % 2 == 1 || k % 6 == 2, bpc_choices: vec![1, 1, 2, 4], ..Default::default() };
         let sc = make_scenario(&mut rng, &o);
         let mut cfg = RunCfg::base(budget(ctx, 40, 60), if k % 2 == 0 { Profile::space() } else { Profile::namespace() });
         cfg.fsck_every_op = true;
@@ -922,7 +952,7 @@ pub fn c06(ctx: &Ctx) -> Report {
     let mut rng = Rng::new(ctx.seed ^ 0xC06);
     let n = budget(ctx, 50, 1500);
     for k in 0..n {
-        let o = ScOpts { fat32: Some(k % 2 == 0), small_root: k % 4 == 1, full_dir: k % 3 == 0, bpc_choices: vec![1, 1, 2, 4], ..Default::default() };
+        let o = ScOpts { fat32: Some(k % 2 == 0), small_root: k % 4 == 1, full_dir: k % 3 == 0, dirty: k % 3 == 0 && k % 2 == 1, bpc_choices: vec![1, 1, 2, 4], ..Default::default() };
         let sc = make_scenario(&mut rng, &o);
         let mut cfg = RunCfg::base(budget(ctx, 40, 60), Profile::namespace());
         cfg.profile.w_list = 14;
@@ -1164,15 +1194,29 @@ pub fn c11(ctx: &Ctx) -> Report {
         let o = ScOpts { fat32: Some(k % 2 == 0), bpc_choices: vec![1, 2], small_root: k % 3 == 2, keep_free: if k % 4 == 3 { Some(vec![2, 6]) } else { None }, limits: Some((4, 4, 1)), ..Default::default() };
         let sc = make_scenario(&mut rng, &o);
         // 1) a fault-free history
-        let mut cfg = RunCfg::base(budget(ctx, 14, 20), Profile::namespace());
-        cfg.profile.w_read = 8;
-        cfg.profile.w_list = 8;
+        // namespace-heavy and data-heavy (long reads over multi-cluster files) histories alternate; the
+        // third kind is a fixed script: one read call over a whole fragmented multi-cluster file, a read
+        // from the middle, listing and lookup - every device call of each of them gets its fault
+        let mut cfg = RunCfg::base(budget(ctx, 14, 20), if k % 3 == 1 { Profile::rw() } else { Profile::namespace() });
+        if k % 3 != 1 {
+            cfg.profile.w_read = 8;
+            cfg.profile.w_list = 8;
+        }
         cfg.compare_reads = true;
+        if k % 3 == 2 {
+            let cb = (sc.vols[0].layout.bpc * 512) as usize;
+            let (v, d, f) = (sc.id_offset, sc.id_offset + 1, sc.id_offset + 2);
+            let data: Vec<u8> = (0..3 * cb + 100).map(|i| (i * 7 + k) as u8).collect();
+            cfg.script = Some(vec![Op::OpenVolume(sc.vols[0].slot), Op::OpenRoot(v), Op::OpenFile(d, "RT.BIN".into(), Mode::ReadWriteCreateOrTruncate), Op::Write(f, data),
+                Op::SeekStart(f, 0), Op::Read(f, 3 * cb + 100), Op::SeekStart(f, 10), Op::Read(f, cb + 5), Op::Length(f), Op::SeekStart(f, (2 * cb - 3) as u32), Op::Read(f, 700),
+                Op::List(d), Op::Find(d, "RT.BIN".into()), Op::ListLfn(d, 64), Op::Flush(f), Op::SeekStart(f, 0), Op::Read(f, 2 * cb), Op::CloseFile(f), Op::Find(d, "RT.BIN".into())]);
+        }
         let mut r1 = rng.fork(k as u64);
         let base = run_case(&mut r1, &sc, &cfg, &mut model, &mut rep, &format!("c11/{}/{k}/base", ctx.seed));
         if !base.clean {
             continue;
         }
+        cfg.retry_expect = Some(base.outcomes.iter().map(|o| o.res.clone()).collect());
         // 2) the same history with a failure at every single device-call index
         let mut points: Vec<(usize, u64)> = Vec::new();
         for (i, &calls) in base.device_calls.iter().enumerate() {
@@ -1201,6 +1245,7 @@ pub fn c11(ctx: &Ctx) -> Report {
         for m in 0..budget(ctx, 6, 40) {
             let mut cfg3 = cfg.clone();
             cfg3.script = Some(base.ops.clone());
+            cfg3.retry_expect = None;
             let nf = rng.range(2, 4);
             cfg3.faults = (0..nf).map(|_| { let i = rng.below(base.ops.len() as u64) as usize; (i, rng.below(base.device_calls[i].max(1))) }).collect();
             cfg3.fsck_every_op = true;
